@@ -141,12 +141,12 @@ func (x *Exec) predeclare(fn *ssa.Function, seen map[*ssa.Function]bool) {
 		defer func() { recover() }()
 		switch u := t.Underlying().(type) {
 		case *types.Slice:
-			x.heapDecl(x.sortOf(u.Elem()))
+			x.heapDecl(u.Elem())
 		case *types.Pointer:
 			if _, ok := u.Elem().Underlying().(*types.Array); !ok {
-				x.heapDecl(x.sortOf(u.Elem()))
+				x.heapDecl(u.Elem())
 			} else {
-				x.heapDecl(x.sortOf(u.Elem()))
+				x.heapDecl(u.Elem())
 			}
 		case *types.Map:
 			st := &State{heaps: map[string]Term{}}
@@ -183,8 +183,8 @@ func (x *Exec) predeclare(fn *ssa.Function, seen map[*ssa.Function]bool) {
 	x.heapDecl(SIface)
 }
 
-func (x *Exec) heapDecl(es Sort) {
-	name := x.heapName(es)
+func (x *Exec) heapDecl(k any) {
+	name, es := x.hkey(k)
 	if _, ok := x.heapSorts[name]; ok {
 		return
 	}
